@@ -153,6 +153,8 @@ def cmp(self, op, a, b):
                 found = True
                 break
         return found if op is ast.In else not found
+    if op in (ast.Is, ast.IsNot):
+        return (a is b) if op is ast.Is else (a is not b)
     if isinstance(a, SymReal) or isinstance(b, SymReal):
         return _cmp_real(self, op, a, b)
     return _old_cmp(self, op, a, b)
